@@ -23,6 +23,10 @@ func runC11(c *Ctx) {
 	scopeAgreement(c, "R4")
 	c11R5(c, "R5")
 	c11R6(c, "R6")
+	if eb := c.P.LangFunc("(*Evaluator).evalBinaryExpr"); eb != nil {
+		c.shared("R7", "C05/R4", "division by zero is a fault that stops the run: every float division / integer remainder in the evaluator is dominated by the zero test and the error return", nil, func(s *Ctx) { c05ZeroGuard(s, eb) })
+	}
+	c.shared("R8", "C13/R5", "a syntax error anywhere pre-empts execution only if the lexer reads the whole text: EOF is produced only at the real end of the text, never on a byte value", keyHas("eof-at-end-only"), c13Operators)
 }
 
 // frozen exceptions of the dropped-error rule: (caller, callee) -> reason
